@@ -204,6 +204,23 @@ def generate(rng, tier):
         if rng.random() < 0.15:
             ys = ys[:-1] if ys and rng.random() < 0.5 else ys + (rng.choice(NS),)
         yield dict(tag='native-tuples', lines=['(cmp native %s %s)' % (enc(xs), enc(ys))])
+    # ... and on the decorated ((k0, .., kn), i) tuples dictable.sort hands to sorted() (nativeKeyId)
+    for _ in range(200 if tier == 'quick' else 4000):
+        w = rng.choice([1, 2, 3])
+        xs = tuple(rng.choice(NS) for _ in range(w))
+        ys = tuple(rng.choice(NS) if rng.random() < 0.4 else xs[i] for i in range(w))
+        i, j = rng.sample(range(6), 2)
+        yield dict(tag='native-keyid', lines=['(cmp native %s %s)' % (enc((xs, i)), enc((ys, j)))])
+    # dictable.sort on a whole table: key columns AND the other columns are gathered (Table.sortBy); also an absent key column
+    for _ in range(150 if tier == 'quick' else 4000):
+        k = rng.choice([0, 1, 2, 3, 5, 8])
+        pool = [rand_scalar(rng) for _ in range(rng.choice([1, 2, 3, 5]))]
+        names = rng.sample(['a', 'b', 'c', 'd'], rng.choice([1, 2, 3, 4]))
+        t = {c: [rng.choice(pool) for _ in range(k)] for c in names}
+        by = rng.sample(names, min(len(names), rng.choice([1, 1, 2]))) if rng.random() < 0.9 else [names[0], 'zz']
+        if rng.random() < 0.05:
+            by = []
+        yield dict(tag='dictable.sort-table', lines=['(cmp sorttable %s %s)' % (enc_tbl(t), enc(by))])
     n = 100 if tier == 'quick' else 3000
     vals = [None, 1, 2, 3, 'a', 'b', 'c', 2.5]
     for _ in range(n):
@@ -216,6 +233,10 @@ def generate(rng, tier):
         k = rng.choice([2, 2, 3, 4, 7])
         rows = [[rng.choice(vals) for _ in range(w)] for _ in range(k)]
         yield dict(tag='dictable.sort-byval', lines=['(cmp byvalidx %s %s)' % (enc(orders), enc(rows))])
+
+
+def enc_tbl(t):
+    return '(D' + ''.join(' (%s %s)' % (proto.hexs(c), enc(list(v))) for c, v in t.items()) + ')'
 
 
 def mutate(rng, x):
@@ -263,6 +284,15 @@ def run_line(state, sx):
         if list(res2['i']) != list(res['i']):
             raise AssertionError('dictable.sort not idempotent')
         return 'ok ' + enc(list(res['i']))
+    if op == 'sorttable':
+        t, by = dec(args[0]), dec(args[1])
+        d = dictable(t) if t else dictable()
+        res = d.sort(*by)
+        if res is d:
+            raise AssertionError('dictable.sort returned its receiver')
+        if dict(d) != t and t:
+            raise AssertionError('dictable.sort modified its receiver')
+        return 'ok ' + enc_tbl({c: list(res[c]) for c in res.keys()})
     if op == 'sortfn':
         keys = dec(args[0])
         fn = {'swap': lambda k0, k1: (k1, k0), 'first': lambda k0: k0, 'pair': lambda k0, k1: [k0, k1]}[args[1]]
@@ -283,7 +313,7 @@ def run_line(state, sx):
 
 def compare(case, i, line, ir, mr):
     if same_reply(ir, mr):
-        if ('TS:' in line or 'NS:' in line or 'NF:' in line or 'NI:' in line) and line.startswith('(cmp sort'):
+        if ('TS:' in line or 'NS:' in line or 'NF:' in line or 'NI:' in line) and (line.startswith('(cmp sort ') or line.startswith('(cmp sortidx')):
             # the reply carries positions / cells only: with spellings the model identifies (Timestamp = datetime, numpy = python
             # number) agreeing with the model does not yet mean "ordered under the implementation's cmp" - evaluate the statement
             bad = statement_fails(line, ir)
@@ -299,6 +329,8 @@ def compare(case, i, line, ir, mr):
         return ('divergence', "python's native comparison gives %s, the reference model Cell.native / nativeArr %s (an assumption about CPython, not a clause of the property)" % (ir, mr))
     # sort / dictable.sort: the model's answer is the unique stable sort under the MODEL's cmp.  Decide the statement with the
     # implementation's own cmp: if the output is a correctly ordered (stable) permutation under it, model and code merely diverge.
+    if line.startswith('(cmp sorttable '):
+        return 'dictable.sort on a table: implementation %s, model (all columns gathered by the stable cmp-sort of the key tuples) %s' % (ir, mr)
     bad = statement_fails(line, ir)
     if bad:
         return '%s; implementation %s, model %s' % (bad, ir, mr)
